@@ -370,4 +370,18 @@ mod io_hosts {
     read_case!(io_read_closed, 4, 5, false, Some(2), b"abc", None, 0);
     read_case!(io_read_all_file, 4, 5, true, None, b"abc", Some((3, Some(b'a'), Some(b'c'))), 3);
     read_case!(io_read_all_stdin_empty, 4, 0, false, None, b"", Some((0, None, None)), 0);
+
+    /// whole legacy write_str, BOUNDED (fixed text; a device that works): all bytes of the string go to the injected standard output,
+    /// which is flushed, nothing goes to the handle table, and the continuation (2nd argument) is forced
+    #[kani::proof] #[kani::unwind(3)]
+    fn write_str_whole() {
+        let mut h = host(true);
+        let mut out = ModelWriter { written: 0, flushed: false, fail: None };
+        let mut inp = ModelReader { data: b"", pos: 0, fail: None };
+        let args = [SemValue::Literal(Literal::String(Utf8String::from("a\u{e9}"))), marker(10)];
+        let r = write_str(&args, &mut inp, &mut out, &[], &mut h);
+        let got = selected(&r);
+        core::mem::forget(r); core::mem::forget(args);
+        assert!(got == Some((10, 0, None)) && out.written == 3 && out.flushed && h.wfile.written == 0 && h.asked_writer.is_none());
+    }
 }
